@@ -6,7 +6,7 @@ sd=$1; n=$2; ids=$3; tier=${4:-quick}
 M=${MUT:-/tmp/mut}
 T=$M.tmp
 [ -d $M ] || git -C /repo worktree add -q --detach $M HEAD
-git -C $M checkout -q --detach $(git -C /repo rev-parse HEAD) 2>/dev/null
+git -C $M checkout -q --detach ${BASE:-$(git -C /repo rev-parse HEAD)} 2>/dev/null
 git -C $M reset -q --hard HEAD ; git -C $M clean -fdq
 if ! git -C $M apply --whitespace=nowarn $sd/patch$n.diff 2>$T.apply.err; then
   # written against an earlier HEAD: three-way, then keep the rebased patch beside the original
